@@ -282,12 +282,6 @@ Proof.
 Qed.
 
 (** ** Lines: clamped sum over unbounded naturals *)
-Fixpoint osum (l : list (option N)) : option N :=     (* None iff nobody lists the line *)
-  match l with
-  | [] => None
-  | None :: l => osum l
-  | Some x :: l => Some (x + default 0 (osum l))
-  end.
 Lemma foldl_osat_some x l :
   foldl (ow sat_add64) (Some (N.min x U64_MAX)) l = Some (N.min (x + default 0 (osum l)) U64_MAX).
 Proof.
